@@ -216,7 +216,7 @@ static void os_history (YaepAllocator *al)
   model_len = 0; nfin = 0;
   for (s = 0; s < K; s++)
     {
-      int op = pick_op (s, "op", 7), n;
+      int op = pick_op (s, "op", 8), n;
       sx_observe ("op", op);
       switch (op)
         {
@@ -230,12 +230,12 @@ static void os_history (YaepAllocator *al)
         case 3: n = szs[sx_choice ("len", 6)]; OS_TOP_EXPAND (os, (size_t) n); { unsigned char *b = (unsigned char *) OS_TOP_BEGIN (os); for (k = 0; k < n; k++) { b[model_len] = (unsigned char) (200 + k); model_top[model_len++] = (unsigned char) (200 + k); } } break;
         case 4: n = szs[sx_choice ("len", 6)]; OS_TOP_SHORTEN (os, (size_t) n); model_len = n >= model_len ? 0 : model_len - n; break;
         case 5: sx_assume (nfin < MAXFIN && model_len <= 64); fin[nfin].addr = OS_TOP_BEGIN (os); fin[nfin].len = model_len; memcpy (fin[nfin].bytes, model_top, (size_t) model_len); nfin++; OS_TOP_FINISH (os); model_len = 0; break;
-        default: OS_TOP_NULLIFY (os); model_len = 0; break;
+        case 6: OS_TOP_NULLIFY (os); model_len = 0; break;
+        default: OS_EMPTY (os); model_len = 0; nfin = 0; break;     /* all finished objects are released, the stack is usable again */
         }
       sx_assume (model_len < 150);
       check_os (&os);
     }
-  if (sx_choice ("empty", 2)) { OS_EMPTY (os); sx_assert (OS_TOP_LENGTH (os) == 0, "an emptied object stack has an empty top object"); OS_TOP_ADD_BYTE (os, 1); sx_assert (OS_TOP_LENGTH (os) == 1, "an emptied object stack is usable"); }
   OS_DELETE (os);
 }
 
